@@ -11,6 +11,7 @@
 (*              READ BACK from the message (acf_msg_length quadlets)       *)
 (*   Close    : write the number of bytes occupied by the messages into    *)
 (*              the control header's data-length field                     *)
+(*   Reopen   : take a closed container up again (append, close again)     *)
 (*                                                                         *)
 (* Design theorems (TLC, every container over the bounded alphabet):       *)
 (*   ParseInvertsAssembly : walking the closed container by the generic    *)
@@ -23,8 +24,8 @@
 (***************************************************************************)
 EXTENDS CanBuild, Json, FiniteSets
 CONSTANTS Ctrls, MaxMsgs, Lens, NBg
-VARIABLES n, ctrl, msgs, used, phase, arena0
-avars == <<mem, hb, out, step, n, ctrl, msgs, used, phase, arena0>>
+VARIABLES n, ctrl, msgs, used, phase, arena0, closedAt      \* closedAt: message counts at which the container was closed so far
+avars == <<mem, hb, out, step, n, ctrl, msgs, used, phase, arena0, closedAt>>
 ASSUME Buf = {1}
 
 LenField(c) == IF c = "Tscf" THEN "stream_data_length" ELSE "ntscf_data_length"
@@ -43,14 +44,14 @@ AInit ==
   /\ \E k \in 1..NBg : arena0 = Pat(k + 1, Cap)
   /\ mem = [b \in Buf |-> arena0]
   /\ hb = [b \in Buf |-> 0] /\ out = Sentinel /\ n = 0 /\ msgs = << >> /\ used = 0 /\ phase = "raw"
-  /\ step = [op |-> "start"]
+  /\ step = [op |-> "start"] /\ closedAt = << >>
 
 InitCtrl ==
   /\ phase = "raw"
   /\ mem' = [mem EXCEPT ![1] = InitSem(@, 0, ctrl)]
   /\ used' = HdrLen[ctrl] /\ phase' = "open" /\ n' = n + 1
   /\ step' = [op |-> "cinit"]
-  /\ UNCHANGED <<hb, out, ctrl, msgs, arena0>>
+  /\ UNCHANGED <<hb, out, ctrl, msgs, arena0, closedAt>>
 
 AppendMsg(kind, id, fd, len, p) ==
   /\ phase = "open" /\ Len(msgs) < MaxMsgs
@@ -61,7 +62,7 @@ AppendMsg(kind, id, fd, len, p) ==
          /\ used' = used + Nat16(GetSem(m2, used, v, "acf_msg_length")) * 4     \* as the talkers do: read the length back
   /\ msgs' = Append(msgs, [kind |-> kind, id |-> id, fd |-> fd, payload |-> Payload(p, len), rawlen |-> len])
   /\ n' = n + 1 /\ step' = [op |-> "append"]
-  /\ UNCHANGED <<hb, out, ctrl, phase, arena0>>
+  /\ UNCHANGED <<hb, out, ctrl, phase, arena0, closedAt>>
 
 \* a GPC message as the hello-world talker assembles it: header initialised, message id and length set through the
 \* library, payload and zero padding copied by the application (GPC has no pad field: the padded payload IS the payload)
@@ -77,20 +78,29 @@ AppendGpc(id, len, p) ==
          /\ used' = used + Nat16(GetSem(m4, used, "Gpc", "acf_msg_length")) * 4
          /\ msgs' = Append(msgs, [kind |-> "gpc", id |-> id, fd |-> 0, payload |-> padded, rawlen |-> len])
   /\ n' = n + 1 /\ step' = [op |-> "append"]
-  /\ UNCHANGED <<hb, out, ctrl, phase, arena0>>
+  /\ UNCHANGED <<hb, out, ctrl, phase, arena0, closedAt>>
 
 Close ==
   /\ phase = "open"
   /\ mem' = [mem EXCEPT ![1] = SetSem(@, 0, ctrl, LenField(ctrl), V64(used - HdrLen[ctrl]))]
   /\ phase' = "closed" /\ n' = n + 1
-  /\ step' = [op |-> "container", ctrl |-> ctrl, msgs |-> msgs, pre |-> arena0, post |-> mem'[1], used |-> used]
+  /\ closedAt' = Append(closedAt, Len(msgs))
+  /\ step' = [op |-> "container", ctrl |-> ctrl, msgs |-> msgs, pre |-> arena0, post |-> mem'[1], used |-> used, closes |-> closedAt']
   /\ UNCHANGED <<hb, out, ctrl, msgs, used, arena0>>
+
+\* a closed container is taken up again (one more message fits into the datagram): further messages are appended behind the
+\* ones already there and the data length is written a second time over its earlier non-zero value
+Reopen ==
+  /\ phase = "closed" /\ Len(closedAt) < 2 /\ Len(msgs) < MaxMsgs
+  /\ phase' = "open" /\ n' = n + 1 /\ step' = [op |-> "reopen"]
+  /\ UNCHANGED <<mem, hb, out, ctrl, msgs, used, arena0, closedAt>>
 
 ANext ==
   \/ InitCtrl
   \/ \E kind \in {"full", "brief"} : \E id \in Ids : \E fd \in {0, 1} : \E len \in Lens : AppendMsg(kind, id, fd, len, (len + fd) % 2)
   \/ \E id \in GpcIds : \E len \in Lens : AppendGpc(id, len, len % 2)
   \/ Close
+  \/ Reopen
 ASpec == AInit /\ [][ANext]_avars
 
 (***************************************************************************)
